@@ -266,3 +266,23 @@ Proof.
   apply (exact_normal_form_unique r a u x W' Wa V' Hx).
   rewrite Q', Q. destruct x as [x1 x2], y as [y1 y2]. split; cbn; ring.
 Qed.
+
+(* a / a is Integer 1 for every non-zero normalised exact a *)
+Lemma guard_self : forall a, guard_rat_div_cplx a a = false.
+Proof. intros a; destruct a; reflexivity. Qed.
+
+Theorem div_self_structural : forall a x, num_wf a = true -> valQi a = Some x -> ~ qi_is_zero x ->
+  num_div a a = Ok (NInt 1).
+Proof.
+  intros a x Wa Hx Nz.
+  destruct (num_div_correct a a x x Hx Hx Nz (guard_self a)) as (r & z & H & V & Q).
+  pose proof (proj1 (num_op_normalised a a r (valQi_exact _ _ Hx) (valQi_exact _ _ Hx) Wa Wa
+                 (or_intror (or_intror (or_intror (or_introl H)))))) as W.
+  rewrite H. f_equal.
+  apply (exact_normal_form_unique r (NInt 1) z (inject_Z 1, 0%Q) W eq_refl V eq_refl).
+  rewrite Q. destruct x as [x1 x2]. unfold qi_is_zero, qi_eq, qi_zero in Nz. cbn [fst snd] in Nz.
+  assert (Hn : ~ (qi_norm2 (x1, x2) == 0)%Q).
+  { intro E. apply Nz. apply (proj2 (qi_zero_norm2 (x1, x2))) in E. exact E. }
+  unfold qi_norm2 in Hn. cbn [fst snd] in Hn.
+  split; unfold qi_div, qi_norm2; cbn [fst snd]; field; exact Hn.
+Qed.
